@@ -106,6 +106,7 @@ struct drv {
 static struct {
     jmp_buf jb;
     bool over, jumped, absurd;
+    size_t absurd_asked;
     bool two_sided;
     int first_hard;           /* first hard answer of any driver, natural end included */
     int first_scripted_hard;  /* first scripted hard error */
@@ -213,6 +214,8 @@ drv_answer(struct drv *d, size_t asked, unsigned char *w, const unsigned char *r
              * other request is served, however large: how much an
              * implementation asks for in one call is its own business; ASan
              * and the aux-region check watch the memory it names.) */
+            if (!E.absurd)
+                E.absurd_asked = asked;
             E.absurd = true;
             ans = -EIO;
             break;
@@ -670,7 +673,9 @@ run_case(const struct impl *im, const struct casep *c, bool *nontrivial)
     SNK.octet = c->snk_octet;
     SNK.script = c->long_snk ? c->long_snk : c->s_snk;
     SNK.slen = c->slen_snk;
-    const size_t work = op_one_sided(op) ? nsmall : (op_counted(op) || op == OP_ATMOST || op == OP_ATMOST_AUX) ? (c->n > c->L ? c->n : c->L) : c->L;
+    /* (the at-most plumbing is also run with n up to SIZE_MAX: what can be moved is bounded by the stream then) */
+    const size_t ncap = (op == OP_ATMOST || op == OP_ATMOST_AUX) && c->n > c->L ? c->L : c->n;
+    const size_t work = op_one_sided(op) ? nsmall : (op_counted(op) || op == OP_ATMOST || op == OP_ATMOST_AUX) ? (ncap > c->L ? ncap : c->L) : c->L;
     E.two_sided = !op_one_sided(op);
     SRC.total = op_one_sided(op) ? UNBOUNDED : c->L;
     SRC.budget = c->slen_src + 2 * (int)work + 8;
@@ -762,6 +767,11 @@ run_case(const struct impl *im, const struct casep *c, bool *nontrivial)
     if (E.aux_bad) {
         report("C17/aux-region", "driver was handed %zu octets at offset %ld of an auxiliary buffer (offset=%zu used=%zu size=%zu)",
                E.aux_bad_len, E.aux_bad_off, E.aux_off, E.aux_used, E.aux_size);
+        return "aux-region";
+    }
+    if (op_aux(op) && E.absurd) {
+        report("C17/aux-region", "a driver was asked for %zu octets at once through an auxiliary buffer of %zu octets (offset=%zu used=%zu)",
+               E.absurd_asked, E.aux_size, E.aux_off, E.aux_used);
         return "aux-region";
     }
     if (op_aux(op) && (op == OP_SOME_AUX || op == OP_ATMOST_AUX)) {
@@ -945,6 +955,8 @@ run_case(const struct impl *im, const struct casep *c, bool *nontrivial)
                        OPNAME[op], rc, SRC.next, SNK.ngot);
                 return "violation";
             }
+            if (bounded && c->n >= (size_t)SSIZE_MAX - 1u)
+                return rc == 0 ? "plumb-moved-none" : "atmost-wide-n-moved";
             return rc == 0 ? "plumb-moved-none" : class_ok();
         }
         if (E.first_hard != 0) {
@@ -958,6 +970,11 @@ run_case(const struct impl *im, const struct casep *c, bool *nontrivial)
                        OPNAME[op], rc, SRC.next, SNK.ngot);
             return "plumb-interrupted";
         }
+        /* A count beyond SSIZE_MAX: the statement's "refused as invalid" is said
+         * of the exact forms; an at-most form may serve such a count (it can
+         * never move that much) or refuse it, as long as nothing is lost. */
+        if (bounded && c->n > (size_t)SSIZE_MAX && SRC.next == SNK.ngot)
+            return "atmost-wide-n-refused";
         report("C17/atmost-count", "%s returned %zd, which no driver answered", OPNAME[op], rc);
         return "violation";
     }
@@ -1212,6 +1229,54 @@ two_sided_layer(const struct tier *t, int d, void (*leaf)(const struct casep *, 
     }
 }
 
+/* at-most plumbing with counts on the boundary family up to SIZE_MAX ("no
+ * limit" spelled (size_t)-1, SSIZE_MAX and its neighbours, SIZE_MAX - k for
+ * every k up to the largest offset) on every auxiliary geometry
+ * 0 <= offset < used < size <= 6: an end position computed as offset + n wraps
+ * exactly when n > SIZE_MAX - offset.  The stream is longer than the buffer, so
+ * that moving more than the region shows. */
+static void
+wide_n_family(int dmax, void (*leaf)(const struct casep *, int))
+{
+    static const size_t NW[] = { (size_t)SSIZE_MAX - 1u, (size_t)SSIZE_MAX, (size_t)SSIZE_MAX + 1u, (size_t)SSIZE_MAX + 2u,
+                                 SIZE_MAX - 6u, SIZE_MAX - 5u, SIZE_MAX - 4u, SIZE_MAX - 3u, SIZE_MAX - 2u, SIZE_MAX - 1u,
+                                 SIZE_MAX };
+    struct casep c;
+    for (int d = 0; d <= dmax; ++d)
+        for (int size = 2; size <= 6; ++size)
+            for (int used = 1; used < size; ++used)
+                for (int off = 0; off < used; ++off)
+                    for (size_t ni = 0; ni < sizeof NW / sizeof *NW; ++ni)
+                        for (int sk = 0; sk < 2; ++sk)
+                            for (int kk = 0; kk < 2; ++kk) {
+                                memset(&c, 0, sizeof c);
+                                c.op = OP_ATMOST_AUX;
+                                c.src_octet = (sk == 0);
+                                c.snk_octet = (kk == 0);
+                                c.slen_src = c.slen_snk = SLOTS_SIDE;
+                                c.off = off;
+                                c.used = used;
+                                c.size = size;
+                                c.n = NW[ni];
+                                c.L = (size_t)size + 3u;
+                                enumerate(&c, d, 0, leaf);
+                            }
+    /* the same counts through sts_atmost (no auxiliary buffer) */
+    for (int d = 0; d <= dmax; ++d)
+        for (size_t ni = 0; ni < sizeof NW / sizeof *NW; ++ni)
+            for (int sk = 0; sk < 2; ++sk)
+                for (int kk = 0; kk < 2; ++kk) {
+                    memset(&c, 0, sizeof c);
+                    c.op = OP_ATMOST;
+                    c.src_octet = (sk == 0);
+                    c.snk_octet = (kk == 0);
+                    c.slen_src = c.slen_snk = SLOTS_SIDE;
+                    c.n = NW[ni];
+                    c.L = 6;
+                    enumerate(&c, d, 0, leaf);
+                }
+}
+
 /* ------------------------------------------------------------------------ */
 /* long transfers under periodic scripts (the structured stand-in for the   */
 /* property's "random long transfers with random scripts")                   */
@@ -1328,13 +1393,31 @@ static const char *const COPNAME[] = { "source_get_chunk", "source_get_chunk_atm
                                        "sts_drain_cbc", "sts_drain", "sts_drain_aux" };
 
 /* The library's endpoints are reached through a counting pass-through driver,
- * so that a retry loop that never ends shows as C17/hang here as well. */
+ * so that a retry loop that never ends shows as C17/hang here as well.  The
+ * pass-through is of the same style (octet / chunk) as the endpoint behind it
+ * and records what that endpoint answered: the oracle of the at-most form holds
+ * the library to its driver's answers, not to a prediction of them. */
 struct wrap {
     Source *src;
     Sink *snk;
     int calls, budget;
     bool over;
+    /* answers of the wrapped driver */
+    int zeros;      /* calls answered 0 */
+    int first_neg;  /* first negative answer (0: none) */
+    size_t moved;   /* sum of the positive answers */
 };
+
+static void
+wrap_note(struct wrap *w, ssize_t rc)
+{
+    if (rc == 0)
+        w->zeros++;
+    else if (rc < 0 && w->first_neg == 0)
+        w->first_neg = (int)rc;
+    else if (rc > 0)
+        w->moved += (size_t)rc;
+}
 
 static ssize_t
 wrap_source(void *driver, void *data, size_t n)
@@ -1345,7 +1428,22 @@ wrap_source(void *driver, void *data, size_t n)
         return -EIO;
     }
     const ssize_t rc = w->src->source.chunk(w->src->driver, data, n);
+    wrap_note(w, rc);
     mc_log("source call %d asked=%zu -> %zd", w->calls, n, rc);
+    return rc;
+}
+
+static int
+wrap_source_octet(void *driver, void *data)
+{
+    struct wrap *w = driver;
+    if (++w->calls > w->budget) {
+        w->over = true;
+        return -EIO;
+    }
+    const int rc = w->src->source.octet(w->src->driver, data);
+    wrap_note(w, rc);
+    mc_log("source call %d (octet) -> %d", w->calls, rc);
     return rc;
 }
 
@@ -1358,7 +1456,22 @@ wrap_sink(void *driver, const void *data, size_t n)
         return -EIO;
     }
     const ssize_t rc = w->snk->sink.chunk(w->snk->driver, data, n);
+    wrap_note(w, rc);
     mc_log("sink call %d asked=%zu -> %zd", w->calls, n, rc);
+    return rc;
+}
+
+static int
+wrap_sink_octet(void *driver, unsigned char c)
+{
+    struct wrap *w = driver;
+    if (++w->calls > w->budget) {
+        w->over = true;
+        return -EIO;
+    }
+    const int rc = w->snk->sink.octet(w->snk->driver, c);
+    wrap_note(w, rc);
+    mc_log("sink call %d (octet) -> %d", w->calls, rc);
     return rc;
 }
 
@@ -1434,10 +1547,19 @@ real_case(int cop, const size_t *p, int np, size_t n, size_t cap, bool plain_buf
     Sink real_sink, sink;
     sink_to_buffer(&real_sink, &sinkb);
     const int budget = 4 * (int)(L + n + cap) + 16;
-    struct wrap wsrc = { &real_source, NULL, 0, budget, false }, wsnk = { NULL, &real_sink, 0, budget, false };
-    MC_ANCHOR(real_source.kind == DATA_KIND_CHUNK && real_sink.kind == DATA_KIND_CHUNK, "buffer endpoints are chunk-style");
-    chunk_source_init(&source, wrap_source, &wsrc);
-    chunk_sink_init(&sink, wrap_sink, &wsnk);
+    struct wrap wsrc = { &real_source, NULL, 0, budget, false, 0, 0, 0 }, wsnk = { NULL, &real_sink, 0, budget, false, 0, 0, 0 };
+    /* whichever style the library gives its buffer endpoints, the pass-through has the same */
+    MC_ANCHOR((real_source.kind == DATA_KIND_CHUNK || real_source.kind == DATA_KIND_OCTET)
+                  && (real_sink.kind == DATA_KIND_CHUNK || real_sink.kind == DATA_KIND_OCTET),
+              "buffer endpoints are octet- or chunk-style");
+    if (real_source.kind == DATA_KIND_OCTET)
+        octet_source_init(&source, wrap_source_octet, &wsrc);
+    else
+        chunk_source_init(&source, wrap_source, &wsrc);
+    if (real_sink.kind == DATA_KIND_OCTET)
+        octet_sink_init(&sink, wrap_sink_octet, &wsnk);
+    else
+        chunk_sink_init(&sink, wrap_sink, &wsnk);
     unsigned char *auxmem = mc_exact(3);
     memset(auxmem, 0xe0, 3);
     ByteBuffer aux = { auxmem, 3, 2, 0 };
@@ -1489,18 +1611,30 @@ real_case(int cop, const size_t *p, int np, size_t n, size_t cap, bool plain_buf
             outcome = "real-source-end";
         }
     } else if (cop == C_GET_ATMOST) {
-        if (L == 0) {
-            if (rc != -ENODATA)
-                mc_fail("C17/hard-error-unchanged", "empty source: source_get_chunk_atmost returned %zd", rc);
+        /* "never move more than asked and return the count actually moved"; "a
+         * hard driver error is returned unchanged".  What the buffer endpoint
+         * answers to a call (a count, 0 while it steps over an empty chunk, its
+         * end) is its own business: the call is held to the answers the
+         * pass-through recorded. */
+        if (taken > n || (rc > 0 && (size_t)rc > n)) {
+            mc_fail("C17/atmost-bound", "source_get_chunk_atmost(%zu) with %zu octets available took %zu and returned %zd", n, L,
+                    taken, rc);
+        } else if (!is_prefix(dst, taken <= n ? taken : n)) {
+            mc_fail("C17/in-order", "destination holds [%s]", hexs(dst, taken));
+        } else if (rc < 0) {
+            if (wsrc.first_neg == 0)
+                mc_fail("C17/atmost-count", "source_get_chunk_atmost(%zu) returned %zd, which the source's driver never answered", n, rc);
+            else if (rc != wsrc.first_neg)
+                mc_fail("C17/hard-error-unchanged", "the source's driver answered %d, source_get_chunk_atmost returned %zd",
+                        wsrc.first_neg, rc);
             outcome = "real-source-end";
+        } else if (wsrc.first_neg != 0 && wsrc.moved == 0) {
+            mc_fail("C17/hard-error-unchanged", "the source's driver moved nothing and answered %d, source_get_chunk_atmost returned %zd",
+                    wsrc.first_neg, rc);
+        } else if ((size_t)rc != taken) {
+            mc_fail("C17/atmost-count", "returned %zd but the source advanced by %zu", rc, taken);
         } else {
-            if (rc <= 0 || (size_t)rc > n)
-                mc_fail("C17/atmost-bound", "source_get_chunk_atmost(%zu) with %zu octets available returned %zd", n, L, rc);
-            else if ((size_t)rc != taken)
-                mc_fail("C17/atmost-count", "returned %zd but the source advanced by %zu", rc, taken);
-            else if (!is_prefix(dst, taken))
-                mc_fail("C17/in-order", "destination holds [%s]", hexs(dst, taken));
-            outcome = (rc > 0 && (size_t)rc < n) ? "real-atmost-short" : "real-atmost-full";
+            outcome = rc == 0 ? "real-atmost-none" : (size_t)rc < n ? "real-atmost-short" : "real-atmost-full";
         }
     } else {
         const bool drain = (cop >= C_DRAIN_CBC);
@@ -1763,19 +1897,21 @@ main(int argc, char **argv)
         two_sided_layer(t, d, emit);
     }
     long_family(mc_thorough() ? 4 : 3, mc_thorough() ? 3 : 2, emit);
+    wide_n_family(mc_thorough() ? 2 : 1, emit);
     if (SUBJECT == &IMPL_UFW)
         real_endpoints(mc_thorough() ? 6 : 4, mc_thorough() ? 5 : 4);
 
-    char bound[700];
+    char bound[1000];
     snprintf(bound, sizeof bound,
              "%sone driver: every script over the first %d of %d call slots and every placement of <= %d deviations over all %d, "
              "N 0..6 and SSIZE_MAX+1; two drivers: every placement of <= %d deviations over 6+6 call slots, %d counts, %d stream "
              "lengths, %d aux geometries (%d of them to one deviation less); octet and chunk drivers on both sides; transfers of "
-             "40 octets under every periodic script of period <= %d (one driver) / <= %d per side (two drivers); real "
-             "buffer/chunks/trivial endpoints with streams <= %d",
+             "40 octets under every periodic script of period <= %d (one driver) / <= %d per side (two drivers); sts_atmost_aux "
+             "on every aux geometry 0<=offset<used<size<=6 and sts_atmost with n in {SSIZE_MAX-1..SSIZE_MAX+2, SIZE_MAX-6..SIZE_MAX} "
+             "under every placement of <= %d deviations; real buffer/chunks/trivial endpoints with streams <= %d",
              SUBJECT == &IMPL_REF ? "[REFERENCE IMPLEMENTATION, not ufw] " : "", t->one_full, t->one_len, t->one_dany, t->one_len,
              t->two_d, t->ncounts, t->nlengths, t->naux, t->naux - t->aux_deep, mc_thorough() ? 4 : 3, mc_thorough() ? 3 : 2,
-             mc_thorough() ? 6 : 4);
+             mc_thorough() ? 2 : 1, mc_thorough() ? 6 : 4);
     mc_finish(true, bound);
     return 0;
 }
